@@ -890,7 +890,7 @@ def run(chk: Check):
         "and returned a tensor that was compared cell by cell"
     )
     chk.trusted += [
-        "hand model coq/model/Operators.v of tensor.py's operator layer, tied by correspondence only",
+        "hand model coq/model/Operators.v of tensor.py's operator layer, tied by correspondence and by regeneration + equivalence proof (TIE operators)",
         "C11's 'never a wrong value' = C11 theorems + C01 (evaluate computes the meaning of the assignment) "
         "applied to the synthesised assignment; the kernel itself is covered here only by the oracle sweep",
         "parse_assignment / parse_format of the synthesised strings (C12): the harness compares the real "
